@@ -156,7 +156,9 @@ theorem exBool_not_enforced (hk1 : k < 1) : ¬ BoxEnforced (exBoolBounds k) (exB
     simp only [exBool, List.mem_singleton] at hdv
     subst hdv
     simp [inDomain]
-  have := h (fun _ => 1) hd "x" ⟨.fin 0, .fin k⟩ (by simp [exBoolBounds, lookupB])
+  have sx : inScope (exBool k).domain "x" :=
+    ⟨{ name := "x", ty := .bool, usage := 1 }, by simp [exBool], rfl, by simp⟩
+  have := h (fun _ => 1) hd "x" ⟨.fin 0, .fin k⟩ sx (by simp [exBoolBounds, lookupB])
   have := this.2
   simp only [upperOK] at this
   exact absurd this (not_le.mpr hk1)
@@ -263,7 +265,7 @@ theorem defined_needed :
     exUndef_not_srcFeasible, exUndef_linFeasible⟩
   · intro ρ h; exact ((srcFeasible_iff _ ρ).mp h).2
   · intro dv hdv hu; exact ⟨dv, hdv, rfl, hu⟩
-  · intro ρ _ n bd hl; simp [lookupB] at hl
+  · intro ρ _ n bd _ hl; simp [lookupB] at hl
   · intro c hc
     simp only [exUndef, List.mem_singleton] at hc
     subst hc
@@ -537,7 +539,7 @@ theorem exAbs_hyps : FragModel true (exAbs : Model (Ext K)) (exAbs : Model (Ext 
     subst hc
     refine ⟨rfl, FG_abs.mpr (FG_var.mpr sx), FG_var.mpr sy, fun ρ => ⟨|ρ "x"|, ρ "y", ?_, by simp [eval]⟩⟩
     rw [eval]; simp [eval, kabs_eq]
-  · intro ρ hd n bd hl
+  · intro ρ hd n bd _ hl
     simp only [exAbsBounds, lookupB_cons] at hl
     by_cases hn : "x" = n
     · subst hn
